@@ -33,16 +33,16 @@ theorem sniff_agree (c : Codec) (hA : AsciiCompatible c) (t : Text) (b : Bytes) 
   · obtain ⟨h1, h2⟩ := sniff_none_of_firstAscii c hA t b he hf
     rw [h1, h2]
 
-theorem chooseBytes_of_agree (t : Text) (b : Bytes) (known : Option Name) (hb : stripBom b = none)
-    (hs : sniff b = codingName t) : chooseBytes b known = .ok (chooseStr t known, b) := by
+theorem chooseBytes_of_agree (env : Env) (t : Text) (b : Bytes) (known : Option Name) (hb : stripBom b = none)
+    (hs : sniff b = codingName t) : chooseBytes env b known = .ok (chooseStr t known, b) := by
   simp only [chooseBytes, hb, hs, chooseStr, defaults_are_utf8.1, defaults_are_utf8.2.1]
   cases codingName t <;> rfl
 
-theorem chooseBytes_bom_of_agree (t : Text) (b r : Bytes) (known : Option Name) (hb : stripBom b = some r)
-    (hs : sniff r = codingName t) (hc : codingName t = none ∨ codingName t = some utf8Name) :
-    chooseBytes b known = .ok (utf8Name, r) := by
-  simp only [chooseBytes, hb, hs, defaults_are_utf8.2.2.1, defaults_are_utf8.2.2.2]
-  rcases hc with hc | hc <;> simp [hc]
+theorem chooseBytes_bom_of_agree (env : Env) (t : Text) (b r : Bytes) (known : Option Name) (hb : stripBom b = some r)
+    (hs : sniff r = codingName t) (hc : codingName t = none ∨ ∃ n, codingName t = some n ∧ env.isUtf8 n = true) :
+    chooseBytes env b known = .ok (utf8Name, r) := by
+  simp only [chooseBytes, hb, hs, defaults_are_utf8.2.2.1, bomAgrees, bom_compared_by_codec, if_true]
+  rcases hc with hc | ⟨n, hc, hn⟩ <;> simp [hc, hn]
 
 theorem stripBom_bom_append (b : Bytes) : stripBom (Generated.Encoding.bom ++ b) = some b := by
   simp [stripBom, bom_is_utf8_bom]
@@ -99,20 +99,40 @@ theorem orDefault_ne_nil (known : Option Name) (d : Name) (hd : d ≠ []) : orDe
   · simp
   · exact hd
 
-theorem chooseBytes_noBom (b r : Bytes) (known : Option Name) (n : Name) (hbom : stripBom b = none)
-    (h : chooseBytes b known = .ok (n, r)) : r = b ∧ n ≠ [] := by
-  simp only [chooseBytes, hbom] at h
-  cases hs : sniff b with
-  | some m =>
-    simp only [hs] at h
-    injection h with h; injection h with h1 h2
-    subst h1; subst h2
-    exact ⟨rfl, codingName_ne_nil _ _ hs⟩
+/-- whatever `chooseBytes` chooses: the bytes to decode are the input without its BOM, the name is not empty -/
+theorem chooseBytes_ok (env : Env) (b r : Bytes) (known : Option Name) (n : Name)
+    (h : chooseBytes env b known = .ok (n, r)) : r = (stripBom b).getD b ∧ n ≠ [] := by
+  simp only [chooseBytes] at h
+  have hu : Generated.Encoding.bomEncoding ≠ [] := by rw [defaults_are_utf8.2.2.1]; decide
+  cases hbom : stripBom b with
+  | some r' =>
+    simp only [hbom] at h
+    cases hs : sniff r' with
+    | some m =>
+      simp only [hs] at h
+      split at h
+      · injection h with h; injection h with h1 h2
+        subst h1; subst h2
+        exact ⟨rfl, hu⟩
+      · cases h
+    | none =>
+      simp only [hs] at h
+      injection h with h; injection h with h1 h2
+      subst h1; subst h2
+      exact ⟨rfl, hu⟩
   | none =>
-    simp only [hs] at h
-    injection h with h; injection h with h1 h2
-    subst h1; subst h2
-    exact ⟨rfl, orDefault_ne_nil _ _ (by rw [defaults_are_utf8.2.1]; decide)⟩
+    simp only [hbom] at h
+    cases hs : sniff b with
+    | some m =>
+      simp only [hs] at h
+      injection h with h; injection h with h1 h2
+      subst h1; subst h2
+      exact ⟨rfl, codingName_ne_nil _ _ hs⟩
+    | none =>
+      simp only [hs] at h
+      injection h with h; injection h with h1 h2
+      subst h1; subst h2
+      exact ⟨rfl, orDefault_ne_nil _ _ (by rw [defaults_are_utf8.2.1]; decide)⟩
 
 /-! ### `render` -/
 
